@@ -33,6 +33,16 @@ ALPHABET = [
     "a = do {\n  h = n => if n < 1 then 0 else n + h(n - 1)\n  return {g: h}\n}",
     "f = do {\n  k = n => if n < 1 then 0 else n + k(n - 1)\n  return k\n}",
     "do {\n  inputs = {n: 9}\n  return #n\n}", "[1, 2] via (p2 => b = p2)", "f = (a) => a * 2",
+    # assignments in return position / inside anonymous function bodies: must stay local
+    "do {\n  return a = 7\n}", "do {\n  return leak1 = 1\n}", "(() => leak2 = 1)()", "(() => a = 9)()",
+    "(q7 => leak3 = q7)(3)", "(if true then (() => leak4 = 1) else (() => 2))()", "map([1], q8 => leak6 = q8)",
+    "g2 = () => leak7 = 1\ng2()", "do {\n  loc1 = 2\n  return do {\n    return leak8 = loc1\n  }\n}",
+    "{k: (() => leak9 = 5)()}", "b = (() => do {\n  return a = 3\n})()",
+    # functions that already have a name, re-bound inside do-blocks (the name is the self reference)
+    "t = do {\n  fact = n => if n < 2 then 1 else n * fact(n - 1)\n  return {f: fact}\n}", "t.f(3)",
+    "do {\n  g9 = t.f\n  return g9(3)\n}",
+    "mk = () => do {\n  fc = n => if n < 2 then 1 else n * fc(n - 1)\n  return fc\n}", "mk()(4)",
+    "do {\n  g8 = mk()\n  return g8(4)\n}", "do {\n  g7 = f\n  return 0\n}",
 ]
 TAIL = "[#n, inputs.n]"
 
@@ -82,7 +92,7 @@ def check_session_invariant(src, out, res, known):
             if k in FORBIDDEN_NAMES:
                 viol("a keyword / built-in name / inputs / constants became bound at top level",
                      {"name": k, "after_statement": i})
-            if k in ("loc1", "p1", "p2", "x", "n", "h", "k"):
+            if k in ("loc1", "p1", "p2", "x", "n", "h", "k", "q7", "q8") or k.startswith("leak"):
                 viol("a do-block local or function parameter is visible at top level after the block/call",
                      {"name": k, "after_statement": i})
             if k in seen and seen[k] != v:
@@ -105,6 +115,23 @@ def check_session_invariant(src, out, res, known):
                          {"name": nm, "before": seen_probe[k], "after": v, "after_statement": i})
                 if v.startswith("OK:") or k not in seen_probe:
                     seen_probe[k] = v if (v.startswith("OK:") or k not in seen_probe) else seen_probe[k]
+    # a statement that binds nothing and succeeded once must give the same result whenever it is
+    # evaluated again later in the session (every name it used is bound, hence immutable)
+    stmts = [x for x in re.split(r"\n(?=\S)", src) if not x.startswith("//")]
+    if len(stmts) == len(segs):
+        first_ok = {}
+        for i, (stx, seg) in enumerate(zip(stmts, segs)):
+            # statements containing an assignment anywhere are excluded (an inner assignment is checked
+            # against the whole scope chain, so it may start failing once an outer name appears: F32)
+            if re.search(r"(?<![=!<>.])=(?![=>])", stx) or stx.startswith("output"):
+                continue
+            r_ = strip_names(seg.partition(";ENV:")[0])
+            if stx in first_ok and first_ok[stx] != r_:
+                viol("the same expression statement gave a different result later in the session",
+                     {"statement": stx, "before": first_ok[stx], "after": r_, "after_statement": i})
+            if r_.startswith("OK:"):
+                first_ok.setdefault(stx, r_)
+            checks += 1
     if segs:
         last = segs[-1].partition(";ENV:")[0]
         if src.endswith(TAIL) and last != "OK:L[N4014000000000000,N4014000000000000]":
@@ -166,7 +193,7 @@ def main(argv):
     agree = 0
     try:
         coq, _ = es.parse_to_coq(h, sub)
-        model = es.model_eval(coq, tag="c03s", fn="run_session false")
+        model = es.model_eval(coq, tag="c03s", fn="run_session_full false")
         for j, i in enumerate(idx):
             if model[j] is None or "UNMODELLED" in model[j]:
                 continue
